@@ -47,7 +47,10 @@ def _gen_optcase(ctx, rng):
     kw = gen_gqr_kwargs(rng, B, feasible=None)
     if kw is None:
         return OptCase(B, "gqr", gqr={}, meta={"mk": kind, "opt": "none"})
-    return OptCase(B, "gqr", gqr=kw, meta={"mk": kind, "opt": kw["constraint_option"]})
+    meta = {"mk": kind, "opt": kw["constraint_option"]}
+    if kw["constraint_option"] in ("max_n", "exact_n") and rng.random() < 0.35:
+        meta["all_sensors_head"] = True
+    return OptCase(B, "gqr", gqr=kw, meta=meta)
 
 
 def _check_opt_case(ctx, case: OptCase, idx):
